@@ -30,7 +30,7 @@ func init() {
 			"R20-order — the searcher list has the preload searcher before the path searcher; OpenPackage publishes the same loaders/loaded tables under package.* and in the registry; RegisterModule stores the module both in _LOADED[name] and under its global name; PreloadModule writes package.preload[name]; the preload searcher reads package.preload. " +
 			"NOT decided: at-most-once under arbitrary histories, error text contents.",
 		Trusted: []string{},
-		Rules:   []func(*Ctx){ruleSentinel, ruleOrder, ruleModulePublishes, ruleSearchersReadOnly},
+		Rules:   []func(*Ctx){ruleSentinel, ruleOrder, ruleModulePublishes, ruleSearchersReadOnly, ruleRegisterModuleAdds},
 	})
 }
 
@@ -309,7 +309,7 @@ func ruleDelegate(c *Ctx) {
 			up, lo, hasUp, hasLo := boundsSym(g, cl, cl.Call.Args[1])
 			_ = up
 			_ = lo
-			if hasUp && hasLo {
+			if hasUp && hasLo && lo >= 1 {
 				okRange = true
 			}
 		}
@@ -682,7 +682,12 @@ func boundsSym(g *PCFG, at ssa.Instruction, v ssa.Value) (up ssa.Value, lo int64
 		switch op {
 		case token.GEQ, token.GTR:
 			if k, ok := constInt(y); ok {
-				lo, hasLo = k, true
+				if op == token.GTR {
+					k++
+				}
+				if !hasLo || k > lo {
+					lo, hasLo = k, true
+				}
 			}
 		case token.LEQ, token.LSS:
 			up, hasUp = y, true
